@@ -3,6 +3,7 @@
 use crate::diagnostics::{Diagnostic, Diagnostics, Error, Lint};
 use crate::slice_file::SliceFile;
 use crate::slice_options::SliceOptions;
+use std::collections::HashSet;
 use std::path::{Path, PathBuf};
 use std::{fs, io};
 
@@ -135,7 +136,7 @@ fn find_slice_files(paths: &[String], are_source_files: bool, diagnostics: &mut 
             continue;
         }
 
-        slice_paths.extend(find_slice_files_in_path(path_buf, diagnostics));
+        slice_paths.extend(find_slice_files_in_path(path_buf, &mut HashSet::new(), diagnostics));
     }
 
     slice_paths
@@ -156,11 +157,23 @@ fn find_slice_files(paths: &[String], are_source_files: bool, diagnostics: &mut 
         .collect()
 }
 
-fn find_slice_files_in_path(path: PathBuf, diagnostics: &mut Diagnostics) -> Vec<PathBuf> {
+fn find_slice_files_in_path(
+    path: PathBuf,
+    visited_directories: &mut HashSet<PathBuf>,
+    diagnostics: &mut Diagnostics,
+) -> Vec<PathBuf> {
     let mut paths = Vec::new();
     if path.is_dir() {
+        // Directories can be reached multiple times through symbolic links (even from within themselves).
+        // If we've already searched this directory, we skip it, otherwise links to parent directories never terminate.
+        if let Ok(canonicalized_path) = path.canonicalize() {
+            if !visited_directories.insert(canonicalized_path) {
+                return paths;
+            }
+        }
+
         // Recurse into the directory.
-        match find_slice_files_in_directory(&path, diagnostics) {
+        match find_slice_files_in_directory(&path, visited_directories, diagnostics) {
             Ok(child_paths) => paths.extend(child_paths),
             Err(error) => Diagnostic::new(Error::IO {
                 action: "read",
@@ -178,14 +191,18 @@ fn find_slice_files_in_path(path: PathBuf, diagnostics: &mut Diagnostics) -> Vec
     paths
 }
 
-fn find_slice_files_in_directory(path: &Path, diagnostics: &mut Diagnostics) -> io::Result<Vec<PathBuf>> {
+fn find_slice_files_in_directory(
+    path: &Path,
+    visited_directories: &mut HashSet<PathBuf>,
+    diagnostics: &mut Diagnostics,
+) -> io::Result<Vec<PathBuf>> {
     let mut paths = Vec::new();
     let dir = path.read_dir()?;
 
     // Iterate though the directory and recurse into any subdirectories.
     for child in dir {
         match child {
-            Ok(child) => paths.extend(find_slice_files_in_path(child.path(), diagnostics)),
+            Ok(child) => paths.extend(find_slice_files_in_path(child.path(), visited_directories, diagnostics)),
             Err(error) => {
                 // If we cannot read the directory entry, report an error and continue.
                 Diagnostic::new(Error::IO {
